@@ -187,6 +187,9 @@ def run_model(text, tmp, io):
     """-> ("ok", None) | ("error", exc); EXEC_LOG and directory listing are inspected by the caller."""
     from mpilot.program import Program
 
+    from ..history import maybe_earlier_v2_load
+
+    maybe_earlier_v2_load(text)
     del EXEC_LOG[:]
     try:
         p = Program.from_source(text, libraries=libraries(io), working_dir=tmp)
@@ -341,8 +344,9 @@ def model_commands(model):
         if node["cmd"] == "EEMSRead":
             spec = model["cols"][node["col"]]
             args = [["InFileName", {"s": "input.csv"}], ["InFieldName", {"s": node["col"]}]]
-            if spec.get("missing") is not None:
-                args.append(["MissingVal", spec["missing"]])
+            missing = node["read_missing"] if node.get("own_missing") else spec.get("missing")
+            if missing is not None:
+                args.append(["MissingVal", missing])
             args.append(["DataType", {"s": "Integer" if spec["dtype"] == "int64" else "Float"}])
         else:
             from .. import arr as A
